@@ -23,6 +23,7 @@ const (
 	VerifPtFPH       = 35 // findPath: helpDelete CAS
 	VerifPtInsPub    = 36 // Insert4: level-0 publish CAS
 	VerifPtInsOwn    = 37 // Insert4: x.getNext(i) (and the CAS of the node's own pointer)
+	VerifPtInsCheck  = 38 // Insert4: x.getNext(i) after a successful upper-level link
 	VerifPtInsLink   = 39 // Insert4: upper-level link CAS
 	VerifPtSdLoad    = 40 // softDelete: delNode.getNext(i)
 	VerifPtSdCas     = 41 // softDelete: mark CAS
